@@ -35,6 +35,13 @@ var blanks = [nEnvs][4]string{
 	{"a b", "a   b", " a  b", "a  b "},
 }
 
+// shadowable root variables by type, the lists that rebind them, and the lists with nil elements
+var (
+	scopeVars  = map[string]string{"a": "int", "b": "int", "z": "int", "n": "int", "f": "float", "g": "float", "zf": "float", "s": "string", "h": "string", "e": "string", "t": "bool", "u": "bool"}
+	scopeLists = map[string][]string{"int": {"Lint", "Lint1"}, "float": {"Lflt"}, "string": {"Lstr"}, "bool": {"Lbool"}}
+	nilLists   = map[string][]string{"int": {"Lin", "Lnil"}, "float": {"Lnil"}, "string": {"Lsn", "Lnil"}, "bool": {"Lbn", "Lnil"}}
+)
+
 var (
 	blankPaths  = []string{"sp", "sp2", "spl", "spt"}
 	blankLits   = []string{"a b", "a  b", "a   b", " a b", "  a b", "a b ", "a b  ", " a  b", "a  b ", "a\tb"}
@@ -93,6 +100,9 @@ func envOf(id int) map[string]any {
 		// strings with single, double and edge blanks (two spellings of a literal that differ only
 		// in blanks must evaluate differently against them)
 		"sp": blanks[id%nEnvs][0], "sp2": blanks[id%nEnvs][1], "spl": blanks[id%nEnvs][2], "spt": blanks[id%nEnvs][3],
+		// lists iterated by the shadowing scopes (elements rebind a root variable of that type)
+		"Lint": []any{0, 9, -2}, "Lint1": []any{5}, "Lflt": []any{0.0, 3.25}, "Lstr": []any{"", "zq", "a b"}, "Lbool": []any{false, true},
+		"Lsn": []any{"zq", nil, "c"}, "Lin": []any{7, nil}, "Lbn": []any{true, nil}, "Lnil": []any{nil},
 		// decimal texts with leading zeros, and texts that are not decimal numbers
 		"z10": "010", "z08": "08", "z007": "007", "z0s": "0",
 		"hx": "0x10", "und": "1_000", "b11": "0b11", "o7": "0o7", "lsp": " 42", "isp": "4 2",
@@ -521,6 +531,13 @@ func binop(op string, l, r any) (any, error) {
 		}
 	case "==", "!=", "<", "<=", ">", ">=":
 		c := 0
+		if l == nil || r == nil {
+			// nil equals only nil
+			if op != "==" && op != "!=" {
+				return nil, bad
+			}
+			return (l == nil && r == nil) == (op == "=="), nil
+		}
 		switch a := l.(type) {
 		case int:
 			b, ok := r.(int)
